@@ -297,6 +297,18 @@ def handle (line : String) : String :=
         | .ok sx => "OK " ++ sx.render
         | .error c => "ERR " ++ c)
     | none => "bad-arg"
+  | ["addr", h] =>
+    match unhexText h with
+    | some cs =>
+      -- the text must be exactly one DirectAddress token
+      (match tokenizeProgram cs with
+        | [it] => if it.ty == "DirectAddress" || it.ty == "DirectAddressIncomplete" then
+            (match Parse.addressParts it.text with
+              | some (l, sz, ps) => s!"addr {l} {sz} " ++ ".".intercalate (ps.map toString)
+              | none => "ERR")
+          else "ERR"
+        | _ => "ERR")
+    | none => "bad-arg"
   | ["decodelex", h] =>
     match unhex h with
     | some b => (match decodeFile b.toList with
